@@ -429,3 +429,130 @@ def membership_facts(use):
                         facts.append((l, r, not pos_))
         child = a
     return facts
+
+
+# ----------------------------------------------------------------------------- reaching definitions (flow sensitive)
+
+class ReachingDefs:
+    """reaching definitions of local names over a CFG.  A definition is (value expr | None, stmt ast, how)."""
+
+    def __init__(self, cfg, funcnode):
+        from sa.typestate import forward
+        self.cfg = cfg
+        self.func = funcnode
+        self.defs = {}      # def id -> (name, value, stmt, how)
+        init = {}
+        a = funcnode.args if not isinstance(funcnode, ast.Lambda) else funcnode.args
+        for x in a.posonlyargs + a.args + a.kwonlyargs + [y for y in (a.vararg, a.kwarg) if y]:
+            did = len(self.defs)
+            self.defs[did] = (x.arg, None, funcnode, 'param')
+            init[x.arg] = frozenset({did})
+        self._node_defs = {}   # cfg node id -> list of (name, def id)
+        for n in cfg.nodes:
+            if n.ast is None:
+                continue
+            lst = []
+            for name, value, how in self._defs_of(n):
+                did = len(self.defs)
+                self.defs[did] = (name, value, n.ast, how)
+                lst.append((name, did))
+            self._node_defs[n.id] = lst
+
+        def transfer(node, state):
+            for name, did in self._node_defs.get(node.id, []):
+                state[name] = frozenset({did})
+            return state
+
+        self.ins, self.outs = forward(cfg, init, transfer, join=lambda x, y: x | y)
+
+    @staticmethod
+    def _target_names(t):
+        return [x.id for x in ast.walk(t) if isinstance(x, ast.Name) and isinstance(x.ctx, (ast.Store, ast.Del))]
+
+    def _defs_of(self, node):
+        a = node.ast
+        out = []
+        if node.kind == 'for' and isinstance(a, (ast.For, ast.AsyncFor)):
+            for nm in self._target_names(a.target):
+                out.append((nm, a.iter, 'for'))
+            return out
+        if node.kind == 'with':
+            for it in a.items:
+                if it.optional_vars is not None:
+                    for nm in self._target_names(it.optional_vars):
+                        out.append((nm, it.context_expr, 'with'))
+            return out
+        if node.kind == 'handler':
+            if a.name:
+                out.append((a.name, None, 'except'))
+            return out
+        if isinstance(a, ast.Assign):
+            for t in a.targets:
+                if isinstance(t, ast.Name):
+                    out.append((t.id, a.value, 'assign'))
+                elif isinstance(t, (ast.Tuple, ast.List)):
+                    same = isinstance(a.value, (ast.Tuple, ast.List)) and len(a.value.elts) == len(t.elts)
+                    for i, e in enumerate(t.elts):
+                        if isinstance(e, ast.Name):
+                            out.append((e.id, a.value.elts[i] if same else a.value, 'assign' if same else 'unpack'))
+                        else:
+                            for nm in self._target_names(e):
+                                out.append((nm, a.value, 'unpack'))
+        elif isinstance(a, ast.AnnAssign) and isinstance(a.target, ast.Name) and a.value is not None:
+            out.append((a.target.id, a.value, 'assign'))
+        elif isinstance(a, ast.AugAssign) and isinstance(a.target, ast.Name):
+            out.append((a.target.id, a.value, 'aug'))
+        elif isinstance(a, (ast.Import, ast.ImportFrom)):
+            for al in a.names:
+                out.append(((al.asname or al.name).split('.')[0], None, 'import'))
+        elif isinstance(a, (ast.FunctionDef, ast.AsyncFunctionDef, ast.ClassDef)):
+            out.append((a.name, None, 'def'))
+        if isinstance(a, ast.AST) and not isinstance(a, (ast.FunctionDef, ast.AsyncFunctionDef, ast.ClassDef)):
+            for x in walk_local(a):
+                if isinstance(x, ast.NamedExpr) and isinstance(x.target, ast.Name):
+                    out.append((x.target.id, x.value, 'walrus'))
+        return out
+
+    def at(self, use_node, name):
+        """definitions of `name` reaching the cfg node(s) of the statement containing use_node
+        -> list of (value expr | None, stmt, how)"""
+        res = []
+        seen = set()
+        for nid in self.cfg.node_of(use_node):
+            for did in self.ins.get(nid, {}).get(name, ()):
+                if did not in seen:
+                    seen.add(did)
+                    _, value, stmt, how = self.defs[did]
+                    res.append((value, stmt, how))
+        return res
+
+    def origins_at(self, use_node, expr, depth=4):
+        """flow-sensitive version of origins(): terminal expressions `expr` may denote at use_node"""
+        if isinstance(expr, ast.Name) and depth > 0:
+            defs = self.at(use_node, expr.id)
+            if not defs:
+                return [expr]
+            out = []
+            for value, stmt, how in defs:
+                if how == 'assign' and value is not None:
+                    out.extend(self.origins_at(stmt, value, depth - 1))
+                elif how == 'aug':
+                    out.append(ast.Name(id=f'<aug:{expr.id}>', ctx=ast.Load()))
+                else:
+                    out.append(ast.Name(id=f'<{how}:{expr.id}>', ctx=ast.Load()))
+            return out
+        if isinstance(expr, ast.IfExp):
+            return self.origins_at(use_node, expr.body, depth) + self.origins_at(use_node, expr.orelse, depth)
+        return [expr]
+
+
+def is_method_call(expr, attrs, rd=None, at=None):
+    """expr is a call of .<attr>(...) for attr in attrs, or of a local alias bound to such a bound method"""
+    if not isinstance(expr, ast.Call):
+        return False
+    if isinstance(expr.func, ast.Attribute) and expr.func.attr in attrs:
+        return True
+    if isinstance(expr.func, ast.Name) and rd is not None:
+        al = rd.origins_at(at if at is not None else expr, expr.func)
+        return bool(al) and all(isinstance(x, ast.Attribute) and x.attr in attrs for x in al)
+    return False
